@@ -95,6 +95,8 @@ def configs(tier):
         add(group='base', d=2, q=1, m=0, T=3, mode=mode, imputer='joint', storage='geometric', cap=2)
         add(group='base', d=1, q=2, m=0, T=T, mode=mode, imputer='product', storage='uniform', cap=2)
         add(group='base', d=2, q=1, m=0, T=3, mode=mode, imputer='joint', storage='batch', labels=2)
+        add(group='base', d=2, q=1, m=2, T=3, mode=mode, imputer='joint', storage='batch')
+        add(group='base', d=2, q=1, m=1, T=3, mode=mode, imputer='default', storage='interval', cap=2, storage_fault=True, _cost=100)
         add(group='base', d=2, q=2, m=0, T=6 if tier == 'quick' else 8, mode=mode, imputer='default', storage='geometric', cap=2,
             alpha_value='1/4', _cost=200)
     return cfgs
@@ -148,13 +150,26 @@ def _step(env, cfg):
 
 def _base(env, cfg):
     cfg = dict(cfg, state='fresh')
-    b = build_incremental(env, IncrementalSage, cfg)
+    plan = None
+    if cfg.get('storage_fault'):
+        from symx.stubs import FaultPlan, Boom
+        plan = FaultPlan(env, name='storage_refuses_k')
+    b = build_incremental(env, IncrementalSage, cfg, faults=plan)
+    if plan is not None:
+        b['model'].faults = b['loss'].faults = b['imputer'].faults = None      # only the storage may refuse an observation
     ex = b['ex']
     _efficiency(env, ex, tag='_fresh')
     from .common import sym_row
     for t in range(cfg['T']):
         x = sym_row(env, b['names'], f"x{t}")
         y = env.real(f"y{t}")
+        if plan is not None:
+            try:
+                ex.explain_one(x, y)
+            except Boom:
+                pass            # the caller catches the error and goes on with the stream
+            s, expl = _efficiency(env, ex, tag='_after_possible_storage_error')
+            continue
         guarded(env, 'explain_one', ex.explain_one, x, y)
         s, expl = _efficiency(env, ex, tag=f"_t{t + 1}")
         env.claim(f"seen_t{t + 1}", eq(ex.seen_samples, t + 1))
